@@ -152,7 +152,7 @@ func TestC10(t *testing.T) {
 		"followed by one of four peer behaviours (silent; 200-1000 more frames; stops reading while sending; disconnects), plus idle-timeout shutdown racing new requests. Monitors: every GOAWAY's last-stream-id >= the highest stream id any handler was ever started for on the connection; its code is one RFC 7540 allows for the offence (or the connection is just closed); no stream above the highest one opened before the offence is dispatched afterwards; "+
 		"ServeConn has returned 15 virtual seconds after the promised handlers finished, whatever the peer does (still present = violation, with the goroutine dump). Distinct = distinct (offence, requests-before states, requests-after, trailing behaviour) vectors.",
 		"virtual time (synctest): 'bounded' is judged as 15 fake-clock seconds after the handlers were released, never by wall clock")
-	n := r.Pick(600, 30000)
+	n := r.Pick(1600, 40000)
 	for i := 0; i < n; i++ {
 		id := fmt.Sprintf("g%d", i)
 		if !r.Want(i, id) {
